@@ -56,7 +56,7 @@ VerifyEvent(e) ==
   /\ e.out.inputs_intact /\ e.out.second_same                      \* inputs are only read; verifying again gives the same answer
   /\ e.out.decode_ok => e.out.shared_hash = e.out.pth_beta          \* a reused Proof value hashes what it decoded last
   /\ e.in.expect = "accept" => e.out.ok /\ e.out.beta = e.facts.beta
-  /\ e.in.expect = "reject" => ~e.out.ok /\ e.out.beta = <<>>
+  /\ e.in.expect = "reject" => ~e.out.ok
   /\ e.in.decodes = "no" => ~e.out.decode_ok /\ ~e.out.pth_ok
   /\ e.out.decode_ok => e.out.reencoded = e.out.pi                  \* decoding succeeds only for inputs that re-encode to themselves
 
